@@ -208,13 +208,12 @@ def malformed(rng):
     return exp(Quantity(2 * units.second)) * units.meter
 
 
-def boundary(rng):
+def boundary(rng, k=None):
     from symplyphysics import Quantity  # pylint: disable=import-outside-toplevel
     m, s, kg = units.meter, units.second, units.kilogram
     a, b, c = Quantity(1 * m), Quantity(-1 * m), Quantity(1 * s)
     z, zs = Quantity(0), Quantity(0 * s)
     inf = Quantity(oo, dimension=units.length)
-    k = rng.randrange(20)
     cases = [
         lambda: Add(a, b, c, evaluate=False),                 # cancelling prefix, then another dimension: must refuse
         lambda: Add(c, a, b, evaluate=False),
@@ -236,8 +235,17 @@ def boundary(rng):
         lambda: Quantity(9 * m)**reduced_dimensionless(rng, 2),
         lambda: exp(reduced_dimensionless(rng, 1)) * units.second,
         lambda: Quantity(sympy.zoo) * units.meter,
+        # a factor of any dimension does not excuse the factors after it
+        lambda: Mul(zs, sin(Quantity(1 * m)), evaluate=False),
+        lambda: Mul(z, sympy.Symbol("free_x"), evaluate=False),
+        lambda: Mul(Quantity(0 * m), inf, evaluate=False),
+        lambda: Mul(inf, Quantity(-2 * m), evaluate=False),
+        lambda: Mul(z, 2**Quantity(3 * s), evaluate=False),
+        lambda: Mul(Quantity(nan, dimension=units.mass), Quantity(1 * m) + Quantity(1 * s), evaluate=False),
     ]
-    return cases[k]()
+    if k is None:
+        k = rng.randrange(len(cases))
+    return cases[k % len(cases)]()
 
 
 # ---- specification predicate, written from the property text (used only after a disagreement) ------
@@ -383,8 +391,8 @@ def build_cases(ctx, n_valid, n_bad, n_boundary):
             g = Gen(rng, p_bad=0.25)
             vec, _a = rand_dimvec(rng, with_angle=False)
             add(g.expr(vec, rng.choice([2, 3, 4])), "malformed")
-    for _ in range(n_boundary):
-        add(boundary(rng), "boundary")
+    for i in range(n_boundary):
+        add(boundary(rng, i), "boundary")   # every curated case is run (cyclically), not a random subset
     return cases, hist
 
 
